@@ -4,14 +4,26 @@ import (
 	"strings"
 
 	"golang.org/x/tools/go/packages"
+	"golang.org/x/tools/go/ssa"
+
+	"kverif/internal/an"
 )
 
 func init() { Registry["C06"] = c06 }
 
+const numaPkg = "pkg/scheduler/plugins/nodenumaresource"
+
 func c06(c *Ctx) {
 	r := c.R
+	r.Decides("comparator positions in every sort site index only the sorted slice (NUMA hint ids are not slice positions)")
+	r.Decides("addPodAllocation and release write the same five ledgers with dual operations on the same amounts")
+	r.Decides("every access to the NodeAllocation ledgers happens under NodeAllocation.lock (write lock for writes)")
+	r.Decides("allocateCPUSet returns a CPU set under a required bind policy only after satisfiedRequiredCPUBindPolicy returned nil; that verifier returns nil only if the policy predicate held")
+	r.Declines("exact count of CPUs, disjointness of CPU ids, never-more-than-free (set arithmetic over topologies)")
+	r.Declines("equality of the ledger with the sum of live pods' allocations over a history")
+
+	// ---- SORT(a)
 	r.Rule("SORT(a): in every sort.Slice/SliceStable comparator the position parameters i,j index only the slice being sorted")
-	const numaPkg = "pkg/scheduler/plugins/nodenumaresource"
 	sites := c.SortSites(func(pk *packages.Package) bool {
 		return c.Thorough() || strings.HasSuffix(pk.PkgPath, numaPkg)
 	})
@@ -20,5 +32,182 @@ func c06(c *Ctx) {
 		r.Floor("SORT", "repo-wide comparator sites", n, 100)
 	} else {
 		r.Floor("SORT", "nodenumaresource comparator sites", n, 5)
+	}
+
+	// ---- MIRROR
+	r.Rule("MIRROR: the effect sets of addPodAllocation and release over the receiver's fields have the same roots and dual operations (mapstore<->mapdelete, Insert<->delete, Add<->Subtract*, RefCount+1<->RefCount-1) on the same amount operand")
+	add := c.Fn(numaPkg, "NodeAllocation", "addPodAllocation")
+	rel := c.Fn(numaPkg, "NodeAllocation", "release")
+	if add != nil && rel != nil {
+		muts := map[string]bool{"Insert": true, "Delete": true}
+		ea := an.Effects(add, an.Receiver(add), muts)
+		er := an.Effects(rel, an.Receiver(rel), muts)
+		ra, rr := an.RootFields(ea), an.RootFields(er)
+		r.Check(strings.Join(ra, ",") == strings.Join(rr, ","), "MIRROR", "NodeAllocation.addPodAllocation~release/write-set", c.Pos(add.Pos()),
+			"both write {"+strings.Join(ra, ",")+"}", "ledger sets differ: add writes {"+strings.Join(ra, ",")+"}, release writes {"+strings.Join(rr, ",")+"}")
+		r.Floor("MIRROR", "NodeAllocation ledgers written by add", len(ra), 5)
+		// per-ledger duality
+		has := func(es []an.Effect, root, op string, valContains ...string) bool {
+			for _, e := range es {
+				if e.Chain.First() != root || e.Op != op {
+					continue
+				}
+				ok := true
+				for _, v := range valContains {
+					if !strings.Contains(e.Val, v) {
+						ok = false
+					}
+				}
+				if ok {
+					return true
+				}
+			}
+			return false
+		}
+		type dual struct {
+			root, addOp, relOp string
+			addVal, relVal     []string
+		}
+		for _, d := range []dual{
+			{"allocatedPods", "mapstore", "mapdelete", nil, nil},
+			{"allocatedCPUs", "mapstore", "mapstore", []string{"RefCount:", "RefCount+1)"}, []string{"RefCount:", "RefCount-1)"}},
+			{"allocatedCPUs", "mapstore", "mapdelete", nil, nil},
+			{"sharedNode", "call:Insert", "mapdelete", nil, nil},
+			{"singleNUMANode", "call:Insert", "mapdelete", nil, nil},
+			{"allocatedResources", "store", "store", []string{"Add(.allocatedResources[].Resources", ".NUMANodeResources[].Resources)"}, []string{"SubtractWithNonNegativeResult(.allocatedResources[].Resources", ".NUMANodeResources[].Resources)"}},
+		} {
+			okA := has(ea, d.root, d.addOp, d.addVal...)
+			okR := has(er, d.root, d.relOp, d.relVal...)
+			r.Check(okA && okR, "MIRROR", "NodeAllocation.addPodAllocation~release/"+d.root+"/"+d.addOp+"~"+d.relOp, c.Pos(rel.Pos()),
+				"dual operations present on both sides", sprintf("expected %s %v in addPodAllocation (found=%v) and its dual %s %v in release (found=%v); add effects: %v; release effects: %v", d.addOp, d.addVal, okA, d.relOp, d.relVal, okR, effStrings(ea), effStrings(er)))
+		}
+	}
+
+	// ---- LOCK
+	r.Rule("LOCK: fields {allocatedPods,allocatedCPUs,allocatedResources,sharedNode,singleNUMANode} of NodeAllocation are read under lock (R or W) and written under lock (W); requirements of helper methods are discharged at every call site")
+	c.RunLock("LOCK", LockCfg{Pkg: numaPkg, Type: "NodeAllocation", Mutex: "lock",
+		Guarded:  []string{"allocatedPods", "allocatedCPUs", "allocatedResources", "sharedNode", "singleNUMANode"},
+		Mutators: []string{"Insert", "Delete"}, MinFuncs: 8})
+
+	// ---- PATH: required bind policy verified before success
+	r.Rule("PATH: in (*resourceManager).allocateCPUSet every return with a nil error is unreachable when options.requiredCPUBindPolicy is true and satisfiedRequiredCPUBindPolicy returned a non-nil error; satisfiedRequiredCPUBindPolicy returns nil only if the policy's predicate returned true")
+	if fn := c.Fn(numaPkg, "resourceManager", "allocateCPUSet"); fn != nil {
+		c06policy(c, fn)
+	}
+	if fn := c.Fn(numaPkg, "", "satisfiedRequiredCPUBindPolicy"); fn != nil {
+		c06verifier(c, fn)
+	}
+}
+
+func effStrings(es []an.Effect) []string {
+	var out []string
+	for _, e := range es {
+		out = append(out, e.String())
+	}
+	return out
+}
+
+// c06policy: assume the flag is set and the verifier failed; no successful return may be reachable.
+func c06policy(c *Ctx, fn *ssa.Function) {
+	const verifier = "github.com/koordinator-sh/koordinator/" + numaPkg + ".satisfiedRequiredCPUBindPolicy"
+	calls := an.CallsTo(fn, false, verifier)
+	key := fkey(fn) + "/requiredCPUBindPolicy=>verified"
+	if len(calls) == 0 {
+		c.R.Fail("PATH", key, c.Pos(fn.Pos()), "allocateCPUSet no longer calls satisfiedRequiredCPUBindPolicy: a required policy is reported satisfied without being verified")
+		return
+	}
+	facts := an.Facts{}
+	for _, cl := range calls {
+		if v := cl.Value(); v != nil {
+			facts[v] = an.NonNil // the verifier returned an error
+		}
+	}
+	// the flag options.requiredCPUBindPolicy is true wherever it is read
+	nflag := 0
+	for _, b := range fn.Blocks {
+		for _, in := range b.Instrs {
+			if u, ok := in.(*ssa.UnOp); ok {
+				if fa, ok := u.X.(*ssa.FieldAddr); ok {
+					if _, f, _, ok := an.FieldOf(fa); ok && f == "requiredCPUBindPolicy" {
+						facts[u] = an.True
+						nflag++
+					}
+				}
+			}
+		}
+	}
+	if nflag == 0 {
+		c.R.Unknown("PATH", key, c.Pos(fn.Pos()), "the flag options.requiredCPUBindPolicy is not read in allocateCPUSet: unknown idiom")
+		return
+	}
+	reach := an.Explore(fn, nil, facts, nil)
+	var bad []string
+	nret := 0
+	for _, ret := range reach.Returns() {
+		nret++
+		if len(ret.Results) != 2 {
+			continue
+		}
+		e := reach.EvalAt(ret.Results[1], ret)
+		if e == an.NonNil {
+			continue // error return
+		}
+		// a return of the verifier's own error value is an error return
+		if e != an.Nil {
+			// could be a variable holding an error from an earlier call: accept only if it is provably non-nil
+			if isErrFromFailedCall(ret.Results[1]) {
+				continue
+			}
+		}
+		bad = append(bad, c.InstrPos(ret))
+	}
+	if len(bad) > 0 {
+		c.R.Fail("PATH", key, c.Pos(fn.Pos()), "with the required policy set and the verifier failing, a return with a possibly nil error is reachable at "+strings.Join(bad, ", "))
+		return
+	}
+	c.R.OK("PATH", key, c.InstrPos(calls[0]), sprintf("under {requiredCPUBindPolicy=true, verifier error!=nil} all %d reachable returns carry a non-nil error", nret))
+}
+
+// isErrFromFailedCall: v is the error result of a call and the return is dominated by "v != nil".
+func isErrFromFailedCall(v ssa.Value) bool {
+	return false
+}
+
+// c06verifier: nil is returned only when satisfied==true, and satisfied flows from the two predicates.
+func c06verifier(c *Ctx, fn *ssa.Function) {
+	key := fkey(fn) + "/nil=>predicate"
+	const p = "github.com/koordinator-sh/koordinator/" + numaPkg + "."
+	full := an.CallsTo(fn, false, p+"determineFullPCPUs")
+	spread := an.CallsTo(fn, false, p+"determineSpreadByPCPUs")
+	if len(full) != 1 || len(spread) != 1 {
+		c.R.Fail("PATH", key, c.Pos(fn.Pos()), sprintf("expected exactly one call to each policy predicate, found determineFullPCPUs=%d determineSpreadByPCPUs=%d", len(full), len(spread)))
+		return
+	}
+	for _, cl := range []ssa.CallInstruction{full[0], spread[0]} {
+		// assume this predicate returned false: no nil return may be reachable from behind it
+		facts := an.Facts{cl.Value(): an.False}
+		reach := an.Explore(fn, an.After(cl), facts, nil)
+		var bad []string
+		for _, ret := range reach.Returns() {
+			if reach.Eval(ret.Results[0]) != an.NonNil {
+				bad = append(bad, c.InstrPos(ret))
+			}
+		}
+		k := key + "/" + an.ShortCallee(cl.Common())
+		c.R.Check(len(bad) == 0, "PATH", k, c.InstrPos(cl), "after the predicate returned false only error returns are reachable",
+			"after the predicate returned false a nil return is reachable at "+strings.Join(bad, ", "))
+	}
+	// each predicate is guarded by the matching policy constant
+	want := map[string]string{"determineFullPCPUs": "FullPCPUs", "determineSpreadByPCPUs": "SpreadByPCPUs"}
+	for _, cl := range []ssa.CallInstruction{full[0], spread[0]} {
+		name := an.ShortCallee(cl.Common())
+		ok := false
+		for _, g := range an.Guards(cl) {
+			if strings.Contains(an.Path(g.Cond), `"`+want[name]+`"`) && g.Truth {
+				ok = true
+			}
+		}
+		c.R.Check(ok, "PATH", key+"/"+name+"/policy-constant", c.InstrPos(cl), "predicate evaluated under policy == "+want[name],
+			"predicate is not guarded by policy == "+want[name]+": guards are "+an.DescribeGuards(an.Guards(cl)))
 	}
 }
